@@ -275,75 +275,25 @@ macro_rules! impl_bop {
                 let ui = self.b() * cond[0].u()
                     + self.d() * cond[1].u()
                     + self.u() * (cond[0].u() * self.base_rate + cond[1].u() * rvax);
+                // Within Case II the closed forms of the four sub-cases reduce to two values: bi - b(y|~x) = P(x) (b(y|x) - b(y|~x))
+                // and di - d(y|x) = (1 - P(x)) (d(y|~x) - d(y|x)), so P(x) cancels, II.A.1 = II.A.2 = ka, II.B.1 = II.B.2 = kb,
+                // and sub-case A holds exactly when ka <= kb: K = min(ka, kb) (mirrored in Case III). Evaluating K this way
+                // avoids the cancellation in bi - b(y|~x) etc., the quotient of two such differences and the
+                // rounding-decided comparisons that used to select the sub-case; a tie in belief or disbelief gives K = 0.
                 let k = match (cond[0].b() > cond[1].b(), cond[0].d() > cond[1].d()) {
                     // Case I
                     (true, true) | (false, false) => 0.0,
-                    // A tie in belief or in disbelief: every reachable sub-case of Case II / III gives k = 0 there,
-                    // but the closed forms of II.A.2 and III.B.2 are 0/0 (and III.B.1 is not 0) and rounding can select them.
-                    _ if cond[0].b() == cond[1].b() || cond[0].d() == cond[1].d() => 0.0,
-                    (bp, _) => {
-                        let pyx = cond[0].b() * self.base_rate
-                            + cond[1].b() * rvax
-                            + ay * (cond[0].u() * self.base_rate + cond[1].u() * rvax);
-                        let px = self.projection();
-                        let r = if bp {
-                            cond[1].b() + ay * (1.0 - cond[1].b() - cond[0].d())
-                        } else {
-                            cond[0].b() + ay * (1.0 - cond[0].b() - cond[1].d())
-                        };
-                        match (pyx > r, px > self.base_rate) {
-                            (false, false) => {
-                                if bp {
-                                    // Case II.A.1
-                                    self.base_rate * self.u() * (bi - cond[1].b()) / (px * ay)
-                                } else {
-                                    // Case III.A.1
-                                    rvax * self.u()
-                                        * (di - cond[1].d())
-                                        * (cond[1].b() - cond[0].b())
-                                        / (px * ay * (cond[0].d() - cond[1].d()))
-                                }
-                            }
-                            (false, true) => {
-                                if bp {
-                                    // Case II.A.2
-                                    self.base_rate
-                                        * self.u()
-                                        * (di - cond[0].d())
-                                        * (cond[0].b() - cond[1].b())
-                                        / ((1.0 - px) * ay * (cond[1].d() - cond[0].d()))
-                                } else {
-                                    // Case III.A.2
-                                    rvax * self.u() * (bi - cond[0].b()) / ((1.0 - px) * ay)
-                                }
-                            }
-                            (true, false) => {
-                                if bp {
-                                    // Case II.B.1
-                                    rvax * self.u()
-                                        * (bi - cond[1].b())
-                                        * (cond[1].d() - cond[0].d())
-                                        / (px * (1.0 - ay) * (cond[0].b() - cond[1].b()))
-                                } else {
-                                    // Case III.B.1
-                                    self.base_rate * self.u() * (di - cond[1].d())
-                                        / (px * (1.0 - ay))
-                                }
-                            }
-                            (true, true) => {
-                                if bp {
-                                    // Case II.B.2
-                                    rvax * self.u() * (di - cond[0].d()) / ((1.0 - px) * (1.0 - ay))
-                                } else {
-                                    // Case III.B.2
-                                    self.base_rate
-                                        * self.u()
-                                        * (bi - cond[0].b())
-                                        * (cond[0].d() - cond[1].d())
-                                        / ((1.0 - px) * (1.0 - ay) * (cond[1].b() - cond[0].b()))
-                                }
-                            }
-                        }
+                    // Case II
+                    (true, false) => {
+                        let ka = self.base_rate * self.u() * (cond[0].b() - cond[1].b()) / ay;
+                        let kb = rvax * self.u() * (cond[1].d() - cond[0].d()) / (1.0 - ay);
+                        ka.min(kb)
+                    }
+                    // Case III
+                    (false, true) => {
+                        let ka = rvax * self.u() * (cond[1].b() - cond[0].b()) / ay;
+                        let kb = self.base_rate * self.u() * (cond[0].d() - cond[1].d()) / (1.0 - ay);
+                        ka.min(kb)
                     }
                 };
                 let b = bi - ay * k;
